@@ -13,6 +13,7 @@
 (*   tapinfo -a pipeline (sig), the byte blocks given to the real writer     *)
 (*   that made the file (wdata, writer; wexc = 1: the writer raised).        *)
 (*   same = 1: all files must give the same edge list.                       *)
+(*   same = 2: skoolkit's own writers: same pilot tones, no excuse.          *)
 (* Verdict: "ok", the first clause that fails, or "drift-..." when only      *)
 (* something the property does not speak about differs.                      *)
 (***************************************************************************)
@@ -76,6 +77,8 @@ FileClause(f) ==
                      ELSE "ok" IN
             IF v = "ok" /\ (dev = "sk" \/ (f.writer = "pzx" /\ ~PzxLayout(sel, f.wdata, "doc"))) THEN "drift-pilot" ELSE v
 
+PilotRuns(runs) == SelectSeq(runs, LAMBDA x : x[1] = 2168)
+
 FilesCase(c) ==
   LET n == Len(c.files)
       v == [k \in 1..n |-> FileClause(c.files[k])]
@@ -87,6 +90,12 @@ FilesCase(c) ==
      ELSE IF c.same = 1 /\ (\E k \in 1..n : c.files[k].sig.has # 1) THEN "machinery-xfmt-sig"
      ELSE IF c.same = 1 /\ (\E k \in 2..n : c.files[k].sig.first # c.files[1].sig.first \/ c.files[k].sig.runs # c.files[1].sig.runs)
           THEN IF \E k \in 1..n : v[k] = "drift-pilot" THEN "drift-pilot" ELSE "xfmt-edges"
+     \* same = 2: the files were written by skoolkit's own writers from the same blocks (write_tap, write_pzx): whichever
+     \* pilot rule skoolkit follows, it must follow the same one in both: the pilot tones (runs of 2168 T-state pulses) agree without any excuse (tails and
+     \* pauses are judged per file)
+     ELSE IF c.same = 2 /\ (\A k \in 1..n : c.files[k].sig.has = 1)
+             /\ (\E k \in 2..n : PilotRuns(c.files[k].sig.runs) # PilotRuns(c.files[1].sig.runs))
+          THEN "own-writers-pilot"
      ELSE IF \E k \in 1..n : v[k] # "ok" THEN v[CHOOSE k \in 1..n : v[k] # "ok"]
      ELSE "ok"
 
